@@ -279,11 +279,21 @@ impl Token {
     }
 }
 
-/// Constructor with a chosen nonce for the verification hooks (`verif_hooks/token_decision.rs`).
 #[cfg(quinn_rs_quinn_verif)]
 impl Token {
+    /// Verification hook accessor: a token with a chosen nonce
     pub(crate) fn verif_with_nonce(payload: TokenPayload, nonce: u128) -> Self {
         Self { payload, nonce }
+    }
+
+    /// Verification hook accessor for the private `decode`
+    pub(crate) fn verif_decode(key: &dyn HandshakeTokenKey, raw_token_bytes: &[u8]) -> Option<Self> {
+        Self::decode(key, raw_token_bytes)
+    }
+
+    /// Verification hook accessor for the private nonce
+    pub(crate) fn verif_nonce(&self) -> u128 {
+        self.nonce
     }
 }
 
